@@ -141,6 +141,8 @@ pub fn kv<'a>(ws: &[&'a str], k: &str) -> &'a str {
 pub struct Topo {
     pub nodes: Vec<String>,
     pub procs: Vec<(String, String, bool)>,
+    pub kinds: HashMap<String, String>,
+    pub rule_tokens: Vec<(String, Vec<String>)>,
     pub rules: Vec<(String, Rule)>,
     pub net: Vec<Vec<String>>,
 }
@@ -154,7 +156,20 @@ impl Topo {
         Rc::new(RefCell::new(Script {
             rules: self.rules.iter().filter(|(p, _)| p == proc).map(|(_, r)| r.clone()).collect(),
             record,
+            canon: self.kinds.get(proc).map(|k| k == "canon").unwrap_or(false),
         }))
+    }
+
+    pub fn make_proc(&self, p: &str, rec: bool) -> Box<dyn anysystem::Process> {
+        let kind = self.kinds.get(p).cloned().unwrap_or_default();
+        if kind == "py" || kind == "pyd" {
+            let toks: Vec<Vec<String>> = self.rule_tokens.iter().filter(|(q, _)| q == p).map(|(_, w)| w.clone()).collect();
+            let class = if kind == "py" { "ScriptProc" } else { "ScriptProcDefault" };
+            let f = anysystem::python::PyProcessFactory::new("/verif/harness/py/vscript.py", class);
+            Box::new(f.build((rules_json(&toks), rec), 1))
+        } else {
+            Box::new(ScriptProc::new(self.script_of(p, rec)))
+        }
     }
 
     pub fn build(&self, seed: u64) -> System {
@@ -163,7 +178,7 @@ impl Topo {
             sys.add_node(n);
         }
         for (p, n, rec) in &self.procs {
-            sys.add_process(p, Box::new(ScriptProc::new(self.script_of(p, *rec))), n);
+            sys.add_process(p, self.make_proc(p, *rec), n);
         }
         for op in &self.net {
             let ws: Vec<&str> = op.iter().map(|s| s.as_str()).collect();
@@ -424,11 +439,22 @@ pub fn run() {
             "end" => println!("end"),
             "cfg" | "refenum" => {}
             "node" => sc.topo.nodes.push(ws[1].to_string()),
-            "proc" => sc
-                .topo
-                .procs
-                .push((ws[1].to_string(), ws[2].to_string(), ws.get(3) == Some(&"rec"))),
-            "rule" => sc.topo.rules.push((ws[1].to_string(), parse_rule(&ws[2..]))),
+            "proc" => {
+                sc.topo
+                    .procs
+                    .push((ws[1].to_string(), ws[2].to_string(), ws[3..].contains(&"rec")));
+                for k in ["py", "pyd", "canon"] {
+                    if ws[3..].contains(&k) {
+                        sc.topo.kinds.insert(ws[1].to_string(), k.to_string());
+                    }
+                }
+            }
+            "rule" => {
+                sc.topo.rules.push((ws[1].to_string(), parse_rule(&ws[2..])));
+                sc.topo
+                    .rule_tokens
+                    .push((ws[1].to_string(), ws[2..].iter().map(|x| x.to_string()).collect()));
+            }
             "net" => sc.topo.net.push(ws[1..].iter().map(|s| s.to_string()).collect()),
             "cb" => sc.cbs.push(ws[1..].iter().map(|s| s.to_string()).collect()),
             "run" | "runfrom" => {
